@@ -374,13 +374,13 @@ def run(tier, seed):
     rep.functions = ["decoder.decode_tcp", "decoder.decode_usb", "decoder.decode_yacht_devices_string", "decoder.decode_actisense_string",
                      "decoder.decode_basic_string", "decoder._extract_header", "decoder._decode / _decode_fast_message (fast comparison)"]
     rep.bounds = {"identifier": "all 2^29 (symbolic)", "data": "1..8 symbolic bytes", "text": "every hex digit in either case; decimal tokens with leading zeros; "
-                  "two timestamp / direction-marker variants per text format", "fast": "payload lengths 6, 7, 13, 14, 20, 21 (thorough: 1..35, 48..50, 223), symbolic addressing"}
+                  "two timestamp / direction-marker variants per text format", "fast": "payload lengths 6, 7, 13, 14, 20, 21 (thorough: 1..35, 48..50, 97), symbolic addressing"}
     rep.outside = ["malformed text (C16)", "timestamp values", "decimal tokens without leading zeros are a sub-case of the fixed-width tokens used"]
     rep.stubs = ["_decode replaced by a recorder (single-frame harness); _call_decode_function replaced by a recorder (fast comparison)"]
     jobs = [(fmt, n, v) for fmt in FORMATS for n in ((1, 3, 8) if tier == "quick" else range(1, 9)) for v in ((0, 1) if fmt in ("yacht", "actisense", "basic") else (0,))]
     fp = pick_fast_pgns(D)
     # payload lengths: around the frame capacities (6 in the first frame, 7 in each later one) and exact multiples of 7
-    fl = (6, 7, 13, 14, 20, 21) if tier == "quick" else tuple(range(1, 36)) + (48, 49, 50, 223)
+    fl = (6, 7, 13, 14, 20, 21) if tier == "quick" else tuple(range(1, 36)) + (48, 49, 50, 97)
     fjobs = [(n_, fp[0]) for n_ in fl] + [(13, 126720), (14, 126720)]
     run_jobs(rep, _worker, jobs, timeout_s=400 if tier == "quick" else 1500)
     run_jobs(rep, _fast_worker, fjobs, timeout_s=400 if tier == "quick" else 3600)
